@@ -90,4 +90,11 @@ theorem tie_cn_roundtrip (cal : Calendar) (D : Int → Prop) (law : cal.Lawful D
     fromChStyle Nv.Gen.C07.cfg cal nb epoch (cnStyle cal nb epoch id) = some id :=
   cn_roundtrip tie_cfg_proved cal D law hl epoch id hid hD
 
+/-- … and for the concrete calendar `shanghai`, with no hypothesis on the calendar -/
+theorem tie_cn_roundtrip_shanghai {nb : BitVec 8} (hl : LayoutOk nb) (epoch id : BitVec 64) (hid : 0 ≤ id.toInt)
+    (he0 : 946684800000 ≤ epoch.toInt) (he1 : epoch.toInt ≤ 2 ^ 47) :
+    (cnStyle shanghai nb epoch id).length = 24 ∧
+    fromChStyle Nv.Gen.C07.cfg shanghai nb epoch (cnStyle shanghai nb epoch id) = some id :=
+  cn_roundtrip_shanghai tie_cfg_proved hl epoch id hid he0 he1
+
 end Nv.C07
